@@ -222,7 +222,8 @@ Step(w) ==
   ELSE IF w.auth = "presign" /\ ~ExpiresOK(w.expires) THEN "parse"           \* parseSignatureParameters
   ELSE IF w.auth = "header" /\ w.authForm # "ok" THEN "parse"
   ELSE IF ~Dev("D-C28-malformed-query-ignored") /\ HasMalformed(w) THEN "parse"     \* design only
-  ELSE IF ~Dev("D-C28-signature-param-ignored") /\ w.auth = "presign" /\ w.xsig # 0 THEN "parse"   \* design only
+  ELSE IF ~Dev("D-C28-signature-param-ignored") /\ w.auth = "presign"
+          /\ (w.xsig # 0 \/ w.sig.tampered = "dropped") THEN "parse"         \* design only: exactly one X-Amz-Signature
   ELSE IF w.cred.region # "cfg" THEN "scope"                                 \* parseCredentialScope
   ELSE IF w.cred.key \notin ConfiguredKeys THEN "key"
   ELSE IF w.cred.service # "s3" THEN "service"
@@ -329,7 +330,9 @@ AllFlavours == {HGet, HPut, PGet, PPut, Flavour("header", "DELETE", "signed", ""
                 Flavour("header", "PUT", "stream_unsigned_trailer", "B0")}
 With(s, f) == [s EXCEPT !.auth = f.auth, !.method = f.method, !.payload = f.payload, !.body = f.body]
 
-Keys == SeqsUpTo(KeyAtoms, IF Big THEN 3 ELSE 2) \ {<<>>}
+KeyAtomsSmall == {"a", "sp", "plus", "pct", "ea", "slash", ".", "hexlo"}
+Keys == (IF Big THEN SeqsUpTo(KeyAtoms, 2) \cup SeqsUpTo(KeyAtomsSmall, 3)
+         ELSE SeqsUpTo(KeyAtoms, 1) \cup SeqsUpTo(KeyAtomsSmall, 2)) \ {<<>>}
 KeyShapes == {[With(Base, f) EXCEPT !.key = k] : f \in (IF Big THEN {HGet, PGet, HPut} ELSE {HGet, PGet}), k \in Keys}
 
 Pair(k, v) == [k |-> k, v |-> v]
